@@ -254,17 +254,31 @@ func (rd *ReorgDetector) loadTrackedHeaders() (err error) {
 	defer rd.trackedBlocksLock.Unlock()
 
 	// Load tracked blocks for all subscribers from the DB
-	if rd.trackedBlocks, err = rd.getTrackedBlocks(); err != nil {
+	trackedBlocks, err := rd.getTrackedBlocks()
+	if err != nil {
 		return fmt.Errorf("failed to get tracked blocks: %w", err)
 	}
 
 	rd.subscriptionsLock.Lock()
 	defer rd.subscriptionsLock.Unlock()
-	// Go over tracked blocks and create subscription for each tracker
-	for id := range rd.trackedBlocks {
-		rd.subscriptions[id] = &Subscription{
-			ReorgedBlock:   make(chan uint64),
-			ReorgProcessed: make(chan bool),
+	// Go over tracked blocks and create subscription for each tracker. A syncer may have subscribed
+	// before Start is executed (Start runs in its own goroutine): its subscription and its list must
+	// be kept, otherwise it would never be notified or even be reported as not subscribed.
+	for id, headers := range trackedBlocks {
+		if existing, ok := rd.trackedBlocks[id]; ok {
+			for _, hdr := range headers.getSorted() {
+				if _, err := existing.get(hdr.Num); err != nil {
+					existing.add(hdr)
+				}
+			}
+		} else {
+			rd.trackedBlocks[id] = headers
+		}
+		if _, ok := rd.subscriptions[id]; !ok {
+			rd.subscriptions[id] = &Subscription{
+				ReorgedBlock:   make(chan uint64),
+				ReorgProcessed: make(chan bool),
+			}
 		}
 	}
 
